@@ -134,7 +134,8 @@ def check_callable(pid, fn, shapes, dtypes, acc=None, sigbase=None, case=None, k
     specs64 = [jax.ShapeDtypeStruct(tuple(s), np.float64 if np.dtype(d).kind == "f" else d) for s, d in zip(shapes, dtypes)]
     try:
         with jaxutil.x64(True):
-            closed = jax.make_jaxpr(fn)(*specs64)
+            pk0 = dict(kw.get("input_params") or {})
+            closed = jax.make_jaxpr(lambda *xs: fn(*xs, **pk0))(*specs64)
             pre = all_f64(closed)
     except Exception:
         pre = None
@@ -158,11 +159,21 @@ def check_callable(pid, fn, shapes, dtypes, acc=None, sigbase=None, case=None, k
             else:
                 feeds.append(np.asarray(rng.random(tuple(s)) > 0.5))
         try:
+            pk = dict(kw.get("input_params") or {})
             with jaxutil.x64(True):
-                ref = jaxutil.flatten(fn(*[jnp.asarray(f) for f in feeds]))
+                ref = jaxutil.flatten(fn(*[jnp.asarray(f) for f in feeds], **pk))
                 nudged = [np.nextafter(f, np.inf) if f.dtype.kind == "f" else f for f in feeds]
-                ref2 = jaxutil.flatten(fn(*[jnp.asarray(f) for f in nudged]))
-            got = jaxutil.run_model(m64, feeds)
+                ref2 = jaxutil.flatten(fn(*[jnp.asarray(f) for f in nudged], **pk))
+            if kw.get("input_params"):
+                from vf import onnxutil
+
+                sess = onnxutil.session(m64)
+                fd, it = {}, iter(feeds)
+                for i in sess.get_inputs():
+                    fd[i.name] = np.asarray(kw["input_params"][i.name], dtype=np.float64 if "double" in i.type else None) if i.name in kw["input_params"] else next(it)
+                got = sess.run(None, fd)
+            else:
+                got = jaxutil.run_model(m64, feeds)
         except Exception as e:
             if acc:
                 acc.tally("double", "run_error")
@@ -287,7 +298,44 @@ def check_generated(kind, a, b, acc=None):
         fn = c07.build(a, b)
         shapes, dts, has_scope = [(3, 4)], [np.dtype(np.float32)], True
         sb = {"layer": "generated", "structure": "hist"}
-    return check_callable(digest([kind, a, b]), fn, shapes, dts, acc, sb, case, None, has_scope)
+    kw = None
+    if case.get("float_param") or (b == "float_param"):
+        inner = fn
+
+        def fn(*xs, scale=0.1, shift=0.3):  # noqa: F811 - float call-time parameters (input_params)
+            import jax
+            import jax.numpy as jnp
+
+            out = inner(*xs)
+            return jax.tree_util.tree_map(lambda o: o * scale + shift if jnp.issubdtype(o.dtype, jnp.floating) else o, out)
+
+        kw = {"input_params": {"scale": 0.1, "shift": 0.3}}
+        sb = dict(sb, float_param=True)
+    return check_callable(digest([kind, a, b]), fn, shapes, dts, acc, sb, case, kw, has_scope)
+
+
+def large_programs():
+    """Size-sensitive lowerings: reductions / scans / contractions over large static extents."""
+    import jax
+    import jax.numpy as jnp
+
+    P = []
+    for shape, axis in (((256, 128), None), ((20000, 8), 0), ((4, 8192), 1), ((20000, 8), 1), ((64, 64, 16), (0, 1))):
+        for name, f in (("sum", jnp.sum), ("mean", jnp.mean), ("prod_small", lambda x, axis=None: jnp.prod(1.0 + x * 1e-4, axis=axis)), ("max", jnp.max),
+                        ("var", jnp.var), ("logsumexp", jax.scipy.special.logsumexp)):
+            P.append((f"{name}{shape}@{axis}", (lambda x, _f=f, _a=axis: _f(x, axis=_a)), [shape]))
+    P.append(("cumsum(4,8192)", lambda x: jnp.cumsum(x, axis=1)[:, -3:], [(4, 8192)]))
+    P.append(("softmax(4,8192)", lambda x: jax.nn.softmax(x, axis=1)[:, :5], [(4, 8192)]))
+    P.append(("matmul(8,4096)x(4096,4)", lambda x: x @ jnp.full((4096, 4), 0.001, x.dtype), [(8, 4096)]))
+    P.append(("dot(32768)", lambda x: jnp.dot(x, x), [(32768,)]))
+    P.append(("einsum_large", lambda x: jnp.einsum("ij,ij->", x, x), [(256, 128)]))
+    return P
+
+
+def check_large(idx, acc=None):
+    name, fn, shapes = large_programs()[idx]
+    return check_callable("large:" + name, fn, shapes, [np.dtype(np.float32)] * len(shapes), acc, {"layer": "large_extent", "program": name.split("(")[0]},
+                          {"kind": "large", "idx": idx, "name": name}, None, has_scope=True)
 
 
 def list_ids(_):
@@ -311,6 +359,7 @@ def plan(tier, seed):
         nsh, budget = 64, 1500
     shards = [{"kind": "catalog", "ids": ids[i::nsh], "budget_s": budget} for i in range(nsh)]
     shards += [{"kind": "generated", "shard": i, "seed": seed, "examples": 8 if tier == "quick" else 60} for i in range(8 if tier == "quick" else 32)]
+    shards += [{"kind": "large", "part": i, "parts": 6} for i in range(6)]
     return shards
 
 
@@ -336,6 +385,12 @@ def work(sh):
                 acc.samples.append({"catalog_id": cid, "precisions": ["single", "double"]})
             for v in vs:
                 acc.violation(v["sig"], v["case"], v["detail"])
+    elif sh["kind"] == "large":
+        n = len(large_programs())
+        for idx in range(sh["part"], n, sh["parts"]):
+            for v in check_large(idx, acc):
+                acc.violation(v["sig"], v["case"], v["detail"])
+        acc.samples.append({"structure": "large_extent", "programs": [p[0] for p in large_programs()][sh["part"]::sh["parts"]][:5]})
     else:
         import hypothesis
         from hypothesis import HealthCheck, Phase, given, settings, strategies as st
@@ -345,8 +400,8 @@ def work(sh):
         @hypothesis.seed(derive_seed(sh["seed"], "c09gen", sh["shard"]))
         @settings(max_examples=sh["examples"], deadline=None, database=None, suppress_health_check=list(HealthCheck),
                   phases=[Phase.generate], report_multiple_bugs=False)
-        @given(st.one_of(st.tuples(st.just("prog"), progen.programs(max_stmts=7, input_kinds=(progen.F, progen.F, progen.I)), st.just(None)),
-                         st.tuples(st.just("cf"), c06.body_strategy(2, unsupported_p=10**6), st.just(None)),
+        @given(st.one_of(st.tuples(st.just("prog"), progen.programs(max_stmts=7, input_kinds=(progen.F, progen.F, progen.I)), st.sampled_from([None, "float_param"])),
+                         st.tuples(st.just("cf"), c06.body_strategy(2, unsupported_p=10**6), st.sampled_from([None, "float_param"])),
                          st.tuples(st.just("hist"), c07.history_strategy(), st.sampled_from(["fn", "uniq"]))))
         def t(c):
             vs = check_generated(c[0], c[1], c[2], acc)
@@ -362,4 +417,6 @@ def work(sh):
 def replay(case):
     if case["kind"] == "catalog":
         return check_catalog(case["id"], None)
+    if case["kind"] == "large":
+        return check_large(case["idx"], None)
     return check_generated(case["gk"], case["a"], case["b"], None)
